@@ -12,7 +12,8 @@ Output: `id<TAB>wt|ill<TAB>FRAG-IN|FRAG-OUT<TAB>why<TAB>concrete sites<TAB>of th
 `status of Sem.run<TAB>status of the KEY-CHECKED run<TAB>AGREE|DISAGREE|SKIP<TAB>static sites in Mono<TAB>status of Sem.run(mono)<TAB>`
 `status of the RE-VIRTUALISED Mono run<TAB>AGREE|DISAGREE|SKIP`; the input has a sixth column `(prog mono)`.
 
-* `FRAG-IN`: `sigClosedB S && ValTy.okProg S P` — the hypothesis of `sem_preserves_types_partial`.
+* `FRAG-IN`: `sigClosedB S && ValTy.okProg S P true` — the hypothesis of `sem_preserves_types_store_partial` (the
+  fragment with the reference builtins; `sem_preserves_types_partial` is the reference-free special case).
 * the key-checked run is the oracle for `traitcall_static_dispatch` on every program, inside the fragment or
   not: every `ETraitCall` whose receiver is annotated with a concrete type `τ` is made to look its
   implementation up under the trait name `Tr@key(τ)`, and the dispatch table gets a row `(Tr@k, k, m, f)` for every
@@ -164,8 +165,8 @@ def runLine (fuel : Nat) (l : String) : String :=
       let P := resolveInherent P0
       let S : Sig := { fns := P.fns, enums := es, structs := ss, builtins := builtins, traits := traits }
       let wt := wtProg S
-      let inF := sigClosedB S && okProg S P
-      let why := if inF then "" else if !sigClosedB S then "sig-not-closed" else (whyProg S P).getD "?"
+      let inF := sigClosedB S && okProg S P true
+      let why := if inF then "" else if !sigClosedB S then "sig-not-closed" else (whyProg S P true).getD "?"
       let st := P.fns.foldl (fun a f => let s := sites P f.body; (a.1 + s.1, a.2.1 + s.2.1, a.2.2 + s.2.2)) (0, 0, 0)
       let o := Sem.run fuel P
       let o' := Sem.run fuel (tagProg P)
